@@ -593,7 +593,7 @@ class Gen:
         kind = self.rng.choice(['inv', 'solve', 'det', 'logdet', 'trace', 'qr', 'cholesky', 'eigh', 'eighQ', 'lu', 'svd', 'qr_full', 'eig', 'cinv', 'csolve', 'csolve_rhs', 'cexpm'])
         if self.allow is not None and ('la:' + kind) not in self.allow and 'la' not in self.allow:
             return False
-        sym = kind in ('cholesky', 'eigh', 'eighQ', 'logdet', 'eig')
+        sym = kind in ('cholesky', 'eigh', 'eighQ', 'eig') or (kind == 'logdet' and self.rng.random() < 0.4)
         perm = list(range(n))
         if not sym and self.rng.random() < 0.6:
             self.rng.shuffle(perm)           # dominant entries off the diagonal: LU needs row exchanges (incl. 3-cycles)
